@@ -120,10 +120,80 @@ class FV:
         out.sort(key=lambda cs: (cs[0].lineno, cs[0].col_offset))
         return out
 
+    def comp_chain(self, expr):
+        """enclosing comprehensions / lambdas of an expression node, outermost first"""
+        if not hasattr(self, "_comp_parent"):
+            cp = {}
+            for st in self.stmts():
+                roots = []
+                if isinstance(st, (ast.If, ast.While)):
+                    roots = [st.test]
+                elif isinstance(st, (ast.For, ast.AsyncFor)):
+                    roots = [st.iter]
+                elif isinstance(st, (ast.With, ast.AsyncWith)):
+                    roots = [it.context_expr for it in st.items]
+                elif isinstance(st, (ast.Try, ast.FunctionDef, ast.AsyncFunctionDef, ast.ClassDef)):
+                    roots = []
+                else:
+                    roots = [st]
+
+                def rec(n, chain):
+                    cp[id(n)] = chain
+                    if isinstance(n, (ast.ListComp, ast.SetComp, ast.GeneratorExp, ast.DictComp)):
+                        # first iterable is evaluated in the enclosing scope
+                        for gi, g in enumerate(n.generators):
+                            rec(g.iter, chain + [(n, gi)] if gi > 0 else chain)
+                            for c_ in g.ifs:
+                                rec(c_, chain + [(n, gi + 1)])
+                            rec(g.target, chain + [(n, gi + 1)])
+                        full = chain + [(n, len(n.generators))]
+                        if isinstance(n, ast.DictComp):
+                            rec(n.key, full)
+                            rec(n.value, full)
+                        else:
+                            rec(n.elt, full)
+                        return
+                    if isinstance(n, ast.Lambda):
+                        rec(n.body, chain + [(n, 0)])
+                        return
+                    for ch in ast.iter_child_nodes(n):
+                        if isinstance(ch, (ast.FunctionDef, ast.AsyncFunctionDef, ast.ClassDef)):
+                            continue
+                        rec(ch, chain)
+                for r_ in roots:
+                    rec(r_, [])
+            self._comp_parent = cp
+        return self._comp_parent.get(id(expr), [])
+
     def term(self, expr, at=None, via=None):
         if at is None:
             at = self.owner(expr)
-        return self.ev.term(expr, at=at, via=via)
+        chain = self.comp_chain(expr)
+        if not chain:
+            return self.ev.term(expr, at=at, via=via)
+        # rebuild the comprehension bindings that are in scope at expr
+        from .terms import _comp_targets
+        ev = self.ev
+        atn = self.cfg.node(at) if isinstance(at, ast.AST) else at
+        restrict = None
+        if via:
+            vn = [self.cfg.node(x) if isinstance(x, ast.AST) else x for x in via]
+            restrict = frozenset(self.cfg.via_restriction(vn))
+        for node, upto in chain:
+            if isinstance(node, ast.Lambda):
+                depth = sum(1 for n in ev.bound if n.startswith("\x00lam"))
+                names = [a.arg for a in node.args.posonlyargs + node.args.args]
+                env = {n: self.ctx.mk(("lam", depth, i)) for i, n in enumerate(names)}
+                env["\x00lam%d" % depth] = self.ctx.const(0)
+                ev = ev.with_bound(env)
+                continue
+            for g in node.generators[:upto]:
+                it = ev._t(g.iter, atn, restrict)
+                env = {}
+                for name, how, (value, path) in _comp_targets(g.target):
+                    env[name] = ev._iter_elem(it, path)
+                ev = ev.with_bound(env)
+        return ev._t(expr, atn, restrict)
 
     def spec(self, text, at=None, env=None):
         return self.ev.spec(text, env=env, at=at)
@@ -141,7 +211,7 @@ class FV:
     def ctor_sites(self, cls=None, via=None):
         out = []
         for call, st in self.calls():
-            t = self.ev.term(call, at=st, via=via)
+            t = self.term(call, at=st, via=via)
             h = self.ctx.head_of(t)
             if not h or h[0] != "new":
                 continue
@@ -163,13 +233,13 @@ class FV:
                     site.has_starstar = True
                     continue
                 if i < len(pnames):
-                    site.args[pnames[i]] = self.ev.term(a_, at=st, via=via)
+                    site.args[pnames[i]] = self.term(a_, at=st, via=via)
                 i += 1
             for k in call.keywords:
                 if k.arg is None:
                     site.has_starstar = True
                     continue
-                v = self.ev.term(k.value, at=st, via=via)
+                v = self.term(k.value, at=st, via=via)
                 if init is not None and k.arg not in pnames and k.arg not in kwonly:
                     site.unbound_kw.append(k.arg)
                 site.args[k.arg] = v
@@ -333,9 +403,10 @@ class Alias:
     """roots(term) -> set of root labels the value may share memory with; FRESH if none.
     Unknown callables fail closed with AnalysisError."""
 
-    def __init__(self, repo, summaries=None):
+    def __init__(self, repo, summaries=None, allocs=False):
         self.repo = repo
         self.summaries = summaries or {}     # call name -> callable(args roots list, kw roots dict) -> roots
+        self.allocs = allocs                 # label fresh allocations "alloc:<atom id>" instead of returning no root
 
     def roots(self, ctx, t):
         a = t.single_atom()
@@ -387,7 +458,7 @@ class Alias:
             for x in args:
                 out |= {r + "<elem>" if False else r for r in self.roots(ctx, x)}
             return out
-        if k in ("iter", "unpack", "with"):
+        if k in ("iter", "unpack", "with", "store", "mut"):
             return self.roots(ctx, args[0])
         if k == "new":
             return set()
@@ -404,13 +475,13 @@ class Alias:
             if fname in VIEW_FUNCS:
                 return self.roots(ctx, args[0]) if args else set()
             if fname in FRESH_FUNCS or fname == "astype":
-                return set()
+                return {f"alloc:{a}"} if self.allocs else set()
             if fname.startswith("."):
                 m = fname[1:]
                 if m in VIEW_METHODS:
                     return self.roots(ctx, args[0])
                 if m in FRESH_METHODS:
-                    return set()
+                    return {f"alloc:{a}"} if self.allocs else set()
                 raise AnalysisError(f"alias table: unknown method .{m}()")
             if fname == "dyn":
                 return set()
@@ -420,30 +491,29 @@ class Alias:
         raise AnalysisError(f"alias: unhandled atom kind {k}")
 
     def _basic_index(self, ctx, idx):
-        """True if the index is basic (ints, slices, Ellipsis, None) -> view"""
+        """False only for indices that are definitely advanced (Boolean masks, index arrays, lists):
+        those copy.  Everything else (ints, slices, Ellipsis, None, unknown scalars) may give a view."""
         a = idx.single_atom()
         if a is None:
-            return idx.is_const() or False
+            return True           # integer arithmetic
         head, args = ctx.atoms[a]
-        if head[0] == "slice":
-            return True
-        if head[0] == "const":
-            return head[1] is None or head[1] is Ellipsis
-        if head[0] == "sym" and head[1] == "np.newaxis":
-            return True
-        if head[0] == "tuple":
+        k = head[0]
+        if k in ("cmp", "not", "and", "or"):
+            return False          # Boolean mask
+        if k == "list":
+            return False
+        if k == "call" and head[1] in ("np.where", "np.argwhere", "np.nonzero", "np.isnan", "np.isclose", "np.array",
+                                       "np.asarray", "np.arange", ".argsort", "np.argsort", ".nonzero"):
+            return False
+        if k == "tuple":
             return all(self._basic_index(ctx, x) for x in args)
-        if head[0] == "call" and head[1] in ("slice", "dfu.assemble_index"):
-            return True
-        if head[0] == "call" and head[1] in ("tuple", "list") and len(args) == 1:
+        if k == "call" and head[1] in ("tuple", "list") and len(args) == 1:
             return self._basic_index(ctx, args[0])
-        if head[0] == "seqcomp":
+        if k == "seqcomp":
             return self._basic_index(ctx, args[0])
-        if head[0] == "sub":
-            return self._basic_index(ctx, args[0])
-        if head[0] in ("phi",):
-            return all(self._basic_index(ctx, x) for x in args)
-        return False
+        if k == "phi":
+            return any(self._basic_index(ctx, x) for x in args)
+        return True
 
 
 # ============================================================================ decoding helpers
@@ -522,3 +592,42 @@ def tuple_consts(ctx, t):
             return None
         out.append(int(c))
     return tuple(out)
+
+
+def strip_stores(ctx, t):
+    """distinct base values of t after removing element stores / in-place container mutations and
+    expanding phis (the object the name is bound to, irrespective of later element writes)"""
+    out = []
+
+    def rec(x, depth=0):
+        h = ctx.head_of(x)
+        if h and h[0] in ("store", "mut") and depth < 50:
+            rec(ctx.args_of(x)[0], depth + 1)
+        elif h and h[0] == "phi":
+            for y in ctx.args_of(x):
+                rec(y, depth + 1)
+        elif h and h[0] == "rec":
+            return
+        else:
+            if not any(ctx.eq(x, o) for o in out):
+                out.append(x)
+    rec(t)
+    return out
+
+
+def stores_of(ctx, t):
+    """[(index term, value term)] of all element stores layered on t (outermost last), phi-expanded"""
+    out = []
+
+    def rec(x, depth=0):
+        h = ctx.head_of(x)
+        if h and h[0] == "store" and depth < 50:
+            b, i, v = ctx.args_of(x)
+            rec(b, depth + 1)
+            if not any(ctx.eq(i, oi) and ctx.eq(v, ov) for oi, ov in out):
+                out.append((i, v))
+        elif h and h[0] == "phi":
+            for y in ctx.args_of(x):
+                rec(y, depth + 1)
+    rec(t)
+    return out
